@@ -119,3 +119,180 @@ Proof.
   intros H1 H2 E. pose proof (roundtrip indent v1 H1) as R1. pose proof (roundtrip indent v2 H2) as R2.
   rewrite E in R1. rewrite R1 in R2. inversion R2. reflexivity.
 Qed.
+
+(* ---------------------------------------------------------------- keys come out sorted *)
+Fixpoint keys_sorted (l : list str) : bool :=
+  match l with
+  | [] => true
+  | a :: t => match t with [] => true | b :: _ => key_leb a b end && keys_sorted t
+  end.
+Fixpoint all_sorted (v : jvalue) : bool :=
+  match v with
+  | JArr l => forallb all_sorted l
+  | JObj m => keys_sorted (map fst m) && forallb (fun kv => all_sorted (snd kv)) m
+  | _ => true
+  end.
+
+Lemma str_compare_antisym a : forall b, str_compare b a = CompOpp (str_compare a b).
+Proof.
+  induction a as [|x a IH]; intros [|y b]; try reflexivity.
+  simpl. rewrite (N.compare_antisym x y). destruct (x ?= y)%N; simpl; auto.
+Qed.
+Lemma key_leb_total a b : key_leb a b = false -> key_leb b a = true.
+Proof. unfold key_leb. rewrite (str_compare_antisym a b). destruct (str_compare a b); simpl; congruence. Qed.
+
+Lemma ins_sorted {A} (kv : str * A) l : keys_sorted (map fst l) = true -> keys_sorted (map fst (ins_key kv l)) = true.
+Proof.
+  induction l as [|kv' t IH]; [reflexivity|]. intros H.
+  cbn [ins_key]. destruct (key_leb (fst kv) (fst kv')) eqn:E.
+  - cbn [map keys_sorted] in *. rewrite E. exact H.
+  - apply key_leb_total in E. destruct t as [|kv'' t'].
+    + cbn [ins_key map keys_sorted]. rewrite E. reflexivity.
+    + cbn [map keys_sorted] in H. apply andb_prop in H. destruct H as [H1 H2].
+      specialize (IH H2). cbn [ins_key] in *. destruct (key_leb (fst kv) (fst kv'')) eqn:E2.
+      * cbn [map keys_sorted]. rewrite E, E2. exact H2.
+      * cbn [map keys_sorted] in *. rewrite H1. exact IH.
+Qed.
+Lemma sort_keys_sorted {A} (l : list (str * A)) : keys_sorted (map fst (sort_keys l)) = true.
+Proof. induction l as [|kv t IH]; [reflexivity|]. simpl. apply ins_sorted. exact IH. Qed.
+
+Lemma forallb_map_all {A B} (P : B -> bool) (f : A -> B) l : Forall (fun x => P (f x) = true) l -> forallb P (map f l) = true.
+Proof. induction 1 as [|x t Hx Ht IH]; [reflexivity|]. simpl. rewrite Hx. exact IH. Qed.
+
+Lemma sortv_sorted v : all_sorted (sortv v) = true.
+Proof.
+  induction v as [| b | n | s | l IH | m IH] using jvalue_ind'; try reflexivity.
+  - simpl. apply forallb_map_all. exact IH.
+  - simpl. rewrite sort_keys_sorted. rewrite forallb_sort_keys. apply forallb_map_all. exact IH.
+Qed.
+
+Lemma map_fst_strip (m : list (str * jvalue)) : map fst (map (fun kv => (fst kv, stripv (snd kv))) m) = map fst m.
+Proof. induction m as [|kv t IH]; [reflexivity|]. simpl. rewrite IH. reflexivity. Qed.
+
+Lemma stripv_sorted v : all_sorted v = true -> all_sorted (stripv v) = true.
+Proof.
+  induction v as [| b | n | s | l IH | m IH] using jvalue_ind'; intros H; try reflexivity.
+  - simpl in *. apply (forallb_map_Forall all_sorted all_sorted stripv l IH H).
+  - simpl in *. apply andb_prop in H. destruct H as [H1 H2]. rewrite map_fst_strip, H1.
+    apply (forallb_map_Forall (fun kv => all_sorted (snd kv)) (fun kv => all_sorted (snd kv)) (fun kv => (fst kv, stripv (snd kv)))); [|exact H2].
+    exact IH.
+Qed.
+
+Lemma canon_sorted v : all_sorted (canon v) = true.
+Proof. apply stripv_sorted, sortv_sorted. Qed.
+
+(* ---------------------------------------------------------------- no integral fraction survives *)
+Definition frac_kept_ok (n : jnum) : bool :=
+  match n_frac n, n_exp n with Some f, None => negb (all_zero f) | _, _ => true end.
+Fixpoint no_zero_fraction (v : jvalue) : bool :=
+  match v with
+  | JNum n => frac_kept_ok n
+  | JArr l => forallb no_zero_fraction l
+  | JObj m => forallb (fun kv => no_zero_fraction (snd kv)) m
+  | _ => true
+  end.
+Lemma strip_num_frac n : frac_kept_ok (strip_num n) = true.
+Proof.
+  destruct n as [neg ip fr ex]. unfold strip_num, frac_kept_ok. cbn [n_neg n_int n_frac n_exp].
+  destruct fr as [f|]; [|reflexivity]. destruct ex as [[sg e]|]; [reflexivity|]. destruct (all_zero f) eqn:E; cbn [n_frac n_exp]; [reflexivity|].
+  rewrite E. reflexivity.
+Qed.
+Lemma stripv_no_zero_fraction v : no_zero_fraction (stripv v) = true.
+Proof.
+  induction v as [| b | n | s | l IH | m IH] using jvalue_ind'; try reflexivity.
+  - simpl. apply strip_num_frac.
+  - simpl. apply forallb_map_all. exact IH.
+  - simpl. apply forallb_map_all. exact IH.
+Qed.
+Lemma canon_no_zero_fraction v : no_zero_fraction (canon v) = true.
+Proof. apply stripv_no_zero_fraction. Qed.
+
+(* ---------------------------------------------------------------- canon v is the same JSON value as v *)
+(* numbers: the decimal value mant * 10^exp10 of a token *)
+Definition dval (s : str) (acc : Z) : Z := fold_left (fun a c => (a * 10 + (Z.of_N c - 48))%Z) s acc.
+Definition num_mant (n : jnum) : Z :=
+  let m := dval (n_int n ++ match n_frac n with Some f => f | None => [] end) 0 in if n_neg n then (- m)%Z else m.
+Definition num_exp10 (n : jnum) : Z :=
+  ((match n_exp n with Some (ESMinus, e) => - dval e 0 | Some (_, e) => dval e 0 | None => 0 end)
+   - Z.of_nat (length (match n_frac n with Some f => f | None => [] end)))%Z.
+
+Lemma dval_zeros f : forall acc, all_zero f = true -> dval f acc = (acc * 10 ^ Z.of_nat (length f))%Z.
+Proof.
+  induction f as [|c f IH]; intros acc H.
+  - simpl. lia.
+  - unfold all_zero in H. simpl in H. apply andb_prop in H. destruct H as [Hc Hf].
+    assert (c = 48%N) by lia. subst c. unfold dval in *. cbn [fold_left length]. rewrite IH by exact Hf.
+    rewrite Nat2Z.inj_succ, Z.pow_succ_r by lia. change (Z.of_N 48 - 48)%Z with 0%Z. ring.
+Qed.
+
+(* mant(n) * 10^exp10(n) = mant(strip n) * 10^exp10(strip n), written without fractions of integers *)
+Lemma strip_num_value n :
+  (num_exp10 n <= num_exp10 (strip_num n))%Z /\
+  num_mant n = (num_mant (strip_num n) * 10 ^ (num_exp10 (strip_num n) - num_exp10 n))%Z.
+Proof.
+  destruct n as [neg ip fr ex]. unfold strip_num. cbn [n_neg n_int n_frac n_exp].
+  assert (Hsame : forall m : jnum, (num_exp10 m <= num_exp10 m)%Z /\ num_mant m = (num_mant m * 10 ^ (num_exp10 m - num_exp10 m))%Z).
+  { intros m. split; [lia|]. rewrite Z.sub_diag. simpl. lia. }
+  destruct fr as [f|]; [|apply Hsame]. destruct ex as [[sg e]|]; [apply Hsame|]. destruct (all_zero f) eqn:E; [|apply Hsame].
+  unfold num_exp10, num_mant. cbn [n_neg n_int n_frac n_exp length]. rewrite app_nil_r.
+  split; [lia|].
+  assert (Hd : dval (ip ++ f) 0 = (dval ip 0 * 10 ^ Z.of_nat (length f))%Z).
+  { unfold dval at 1. rewrite fold_left_app. fold (dval ip 0). fold (dval f (dval ip 0)). apply dval_zeros. exact E. }
+  rewrite Hd.
+  replace (0 - Z.of_nat 0 - (0 - Z.of_nat (length f)))%Z with (Z.of_nat (length f)) by lia.
+  destruct neg; ring.
+Qed.
+
+Inductive same_value : jvalue -> jvalue -> Prop :=
+| SV_null : same_value JNull JNull
+| SV_bool b : same_value (JBool b) (JBool b)
+| SV_num n : same_value (JNum n) (JNum (strip_num n))          (* same decimal value: strip_num_value *)
+| SV_str s : same_value (JStr s) (JStr s)
+| SV_arr l l' : Forall2 same_value l l' -> same_value (JArr l) (JArr l')
+| SV_obj m m1 m' :
+    Forall2 (fun kv kv' => fst kv = fst kv' /\ same_value (snd kv) (snd kv')) m m1 ->
+    Permutation m1 m' -> same_value (JObj m) (JObj m').
+
+Lemma ins_key_perm {A} (kv : str * A) l : Permutation (ins_key kv l) (kv :: l).
+Proof.
+  induction l as [|kv' t IH]; [apply Permutation_refl|]. simpl. destruct (key_leb (fst kv) (fst kv')).
+  - apply Permutation_refl.
+  - eapply Permutation_trans; [apply perm_skip, IH|]. apply perm_swap.
+Qed.
+Lemma sort_keys_perm {A} (l : list (str * A)) : Permutation (sort_keys l) l.
+Proof.
+  induction l as [|kv t IH]; [apply Permutation_refl|]. simpl.
+  eapply Permutation_trans; [apply ins_key_perm|]. apply perm_skip, IH.
+Qed.
+
+Lemma canon_same_value v : same_value v (canon v).
+Proof.
+  induction v as [| b | n | s | l IH | m IH] using jvalue_ind'; try (constructor; fail).
+  - unfold canon. simpl. rewrite map_map. apply SV_arr.
+    induction IH as [|x t Hx Ht IHt]; constructor; [exact Hx|exact IHt].
+  - unfold canon. cbn [sortv stripv].
+    apply (SV_obj m (map (fun kv => (fst kv, canon (snd kv))) m)).
+    + induction IH as [|kv t Hx Ht IHt]; constructor; [split; [reflexivity|exact Hx]|exact IHt].
+    + replace (map (fun kv => (fst kv, canon (snd kv))) m)
+        with (map (fun kv : str * jvalue => (fst kv, stripv (snd kv))) (map (fun kv => (fst kv, sortv (snd kv))) m))
+        by (rewrite map_map; reflexivity).
+      apply Permutation_map. apply Permutation_sym. apply sort_keys_perm.
+Qed.
+
+(* ---------------------------------------------------------------- witnesses *)
+Lemma surrogate_pair_witness :
+  wf (JStr [55357; 56832]%N) = false /\
+  decode (encode None (JStr [55357; 56832]%N)) = DecOk (JStr [128512%N]).
+Proof. split; vm_compute; reflexivity. Qed.
+
+Definition nonvac_value : jvalue :=
+  JObj [(U "b", JArr [JNum (JN false (U "1") (Some (U "0")) None); JStr (U "etc., x.0]"); JNull; JArr []; JObj [];
+                      JNum (JN false (U "1") (Some (U "50")) (Some (ESPlus, U "16")))]);
+        (U "a.0,", JNum (JN true (U "0") (Some (U "0")) None));
+        ([128512%N; 92%N], JStr [34%N; 92%N; 10%N; 233%N; 65535%N; 1114111%N])].
+Definition nonvac_text : str :=
+  U "{\000022a.0,\000022:-0,\000022b\000022:[1,\000022etc., x.0]\000022,null,[],{},1.50e+16],\000022\00005cud83d\00005cude00\00005c\00005c\000022:\000022\00005c\000022\00005c\00005c\00005cn\00005cu00e9\00005cuffff\00005cudbff\00005cudfff\000022}".
+Lemma nonvacuous :
+  wf nonvac_value = true /\ decode (encode (Some 3%nat) nonvac_value) = DecOk (canon nonvac_value)
+  /\ jvalue_eqb (canon nonvac_value) nonvac_value = false /\ encode None nonvac_value = nonvac_text.
+Proof. split; [|split; [|split]]; vm_compute; reflexivity. Qed.
